@@ -15,14 +15,23 @@ AllOps == {"AND","OR","EQUALS","LIKE","NOT","RANGE","MUST","MUST_NOT","BOOST","F
 MapOf(run) == CASE run.mode = "all"     -> [o \in AllOps |-> o]
                 [] run.mode = "removed" -> [o \in AllOps \ {run.mop} |-> o]
                 [] run.mode = "over"    -> [o \in AllOps |-> IF o = run.mop THEN "X" \o o ELSE o]
-\* one render against the fold discipline
+\* an argument is the rendered child, wrapped in parentheses at most
+ArgOk(x, bare) == x = bare \/ x = "(" \o bare \o ")"
+CallOk(real, model) == real.op = model.op /\ real.ret = model.ret /\ ArgOk(real.l, model.lb) /\ ArgOk(real.r, model.rb)
+CallsOk(real, model, n) == \A i \in 1..n : CallOk(real[i], model[i])
+\* one render against the fold discipline (REF)
 RunOk(T, run) ==
   LET m == MapOf(run)
       w == F!Fold(T, m) IN
-  IF w.ok THEN run.outcome = "ok" /\ run.calls = w.calls /\ run.out = w.ret
+  IF w.ok THEN run.outcome = "ok" /\ Len(run.calls) = Len(w.calls) /\ CallsOk(run.calls, w.calls, Len(w.calls)) /\ run.out = w.ret
   ELSE \* an operator of the tree has no function: error, no partial SQL; the calls made before are a prefix of the fold
        /\ run.outcome = "err" /\ run.out = ""
-       /\ Len(run.calls) <= Len(w.calls) /\ run.calls = SubSeq(w.calls, 1, Len(run.calls))
+       /\ Len(run.calls) <= Len(w.calls) /\ CallsOk(run.calls, w.calls, Len(run.calls))
+\* conformance with the MECH reading of Fold.tla: exactly the parenthesisation Base.Render uses today (drift, not a verdict)
+Strip(c) == [op |-> c.op, l |-> c.l, r |-> c.r, ret |-> c.ret]
+RunExact(T, run) ==
+  LET w == F!Fold(T, MapOf(run)) IN
+  Len(run.calls) <= Len(w.calls) /\ \A i \in 1..Len(run.calls) : run.calls[i] = Strip(w.calls[i])
 
 RECURSIVE HasSuffixOp(_)
 HasSuffixOp(T) == CASE T.op \in {"LIT","WILD","REGEXP"} -> FALSE
@@ -38,19 +47,20 @@ C15(c) ==
       ELSE <<Fail(c, "ToPostgres / ToParameterizedPostgres rendered a query with a fuzzy or boost operator")>>)
 Judge(c) == C15(c)
 
-VARIABLES sh, n, last, fails, kfs, nfail, nkf, judged
-vars == <<sh, n, last, fails, kfs, nfail, nkf, judged>>
+VARIABLES sh, n, last, fails, kfs, nfail, nkf, judged, ndrift
+vars == <<sh, n, last, fails, kfs, nfail, nkf, judged, ndrift>>
 Open(f)  == SelectSeq(f, LAMBDA v : v.kf = "none")
 Known(f) == SelectSeq(f, LAMBDA v : v.kf # "none")
-Init == sh \in 0..(Shards - 1) /\ n = sh /\ last = <<>> /\ fails = <<>> /\ kfs = <<>> /\ nfail = 0 /\ nkf = 0 /\ judged = 0
+Init == sh \in 0..(Shards - 1) /\ n = sh /\ last = <<>> /\ fails = <<>> /\ kfs = <<>> /\ nfail = 0 /\ nkf = 0 /\ judged = 0 /\ ndrift = 0
 Next == /\ n < Len(Lines) + Shards /\ n' = n + Shards /\ UNCHANGED sh
         /\ last' = IF n < Len(Lines) THEN Judge(Lines[n + 1]) ELSE <<>>
         /\ fails' = IF Len(fails) >= 100 THEN fails ELSE fails \o Open(last)
         /\ kfs' = IF Len(kfs) >= 100 THEN kfs ELSE kfs \o Known(last)
         /\ nfail' = nfail + Len(Open(last)) /\ nkf' = nkf + Len(Known(last))
         /\ judged' = judged + (IF n < Len(Lines) THEN Len(Lines[n + 1].runs) ELSE 0)
+        /\ ndrift' = ndrift + (IF n < Len(Lines) THEN Cardinality({i \in DOMAIN Lines[n + 1].runs : ~RunExact(Lines[n + 1].tree, Lines[n + 1].runs[i])}) ELSE 0)
 Spec == Init /\ [][Next]_vars
 Report == n >= Len(Lines) + Shards =>
-            /\ PrintT("JUDGED " \o ToJson([prop |-> Prop, shard |-> sh, judged |-> judged, failures |-> nfail, known |-> nkf]))
+            /\ PrintT("JUDGED " \o ToJson([prop |-> Prop, shard |-> sh, judged |-> judged, failures |-> nfail, known |-> nkf, drift |-> ndrift]))
             /\ ndJsonSerialize(VerdictFile \o "." \o ToString(sh), fails \o kfs)
 =========================================================================
